@@ -38,10 +38,11 @@ struct Config {
     CAmount threshold;   // fee threshold
     CAmount tx_fee;      // fee of the tx the mempool thread adds
     bool pre;            // the other thread's action completes before the waiter starts
+    bool rich{false};    // the template being waited on already carries > 2^31 sat of fees (two 32-bit halves differ)
     std::string str() const
     {
         static const char* names[] = {"tip-change", "fee-rise", "interrupt", "twenty-minute-rule", "tip-change+interrupt"};
-        return std::string(names[scenario]) + " blocks=" + std::to_string(blocks) + " timeout_ticks=" + std::to_string(timeout_ticks) + " threshold=" + (threshold == MAX_MONEY ? std::string("MAX") : std::to_string(threshold)) + " tx_fee=" + std::to_string(tx_fee) + " action_before_wait=" + std::to_string(pre);
+        return std::string(names[scenario]) + " blocks=" + std::to_string(blocks) + " timeout_ticks=" + std::to_string(timeout_ticks) + " threshold=" + (threshold == MAX_MONEY ? std::string("MAX") : std::to_string(threshold)) + " tx_fee=" + std::to_string(tx_fee) + " action_before_wait=" + std::to_string(pre) + (rich ? " previous_template_fees=25BTC" : "");
     }
 };
 
@@ -177,7 +178,13 @@ int main(int argc, char** argv)
     auto u = W.L.UtxoAt(W.base_tip);
     COutPoint coin;
     CAmount coin_value = 0;
-    for (auto& [op, c] : *u) if (c.coinbase && 111 - c.height >= 100) { coin = op; coin_value = c.value; break; }
+    COutPoint coin2;
+    CAmount coin2_value = 0;
+    for (auto& [op, c] : *u) if (c.coinbase && 111 - c.height >= 100) {
+        if (coin.IsNull()) { coin = op; coin_value = c.value; }
+        else { coin2 = op; coin2_value = c.value; break; }
+    }
+    if (coin.IsNull() || coin2.IsNull()) { printf("HARNESS-ERROR property=C65 no two mature coins\n"); return 2; }
     vxs_scope_add(&cs_main);
     vxs_scope_add(&node.pool().cs);
     vxs_scope_add(&node.m_node.notifications->m_tip_block_mutex);
@@ -200,11 +207,28 @@ int main(int argc, char** argv)
     }
     cfgs.insert(cfgs.begin(), {3, 0, 3, MAX_MONEY, 0, true});        // twenty-minute rule
     cfgs.push_back({2, 0, 1, MAX_MONEY, 0, false});
+    // the template being waited on already pays 25 BTC of fees (> 2^31 sat): "fees rose by the threshold" must be
+    // judged on the full 64-bit totals. Kept last: preparing it adds a transaction to the parent's mempool.
+    for (bool pre : {true, false}) {
+        cfgs.push_back({1, 0, 2, FEE, FEE - 1, pre, true});   // one satoshi short of the threshold: must time out
+        cfgs.push_back({1, 0, 2, FEE, FEE, pre, true});       // exactly the threshold: must return
+    }
+    bool rich_prepared = false;
     uint64_t total_exec = 0, total_points = 0, configs = 0;
     int distinct = 0;
     bool complete = true, herr = false;
     for (auto& c : cfgs) {
         if (vx::deadline_reached()) { complete = false; break; }
+        if (c.rich && !rich_prepared) {
+            auto big = SpendTx({coin2}, {coin2_value / 2});   // 25 BTC fee
+            auto res = node.SubmitTx(big);
+            if (res.m_result_type != MempoolAcceptResult::ResultType::VALID) { printf("HARNESS-ERROR property=C65 could not prepare the high-fee template: %s\n", res.m_state.ToString().c_str()); return 2; }
+            BlockCreateOptions co;
+            W.tmpl = BlockAssembler{node.cs(), &node.pool(), co}.CreateNewBlock();
+            CAmount f = std::accumulate(W.tmpl->vTxFees.begin(), W.tmpl->vTxFees.end(), CAmount{0});
+            if (f <= (CAmount{1} << 31)) { printf("HARNESS-ERROR property=C65 high-fee template has only %lld sat of fees\n", (long long)f); return 2; }
+            rich_prepared = true;
+        }
         W.tx = SpendTx({coin}, {coin_value - c.tx_fee});
         vxs::Options o;
         o.max_preempt = big ? 2 : 1;
